@@ -168,8 +168,9 @@ Lemma C12_checked_predicates : forall w h p,
   picture_ok_fast w h p = picture_ok w h p /\
   (forall expected, picture_ok_fast w h p = true ->
      Forall (fun r => N.of_nat (length r) = w) expected ->
-     picture_eq_fast w expected p = picture_eq expected p).
-Proof. exact fast_predicates. Qed.
+     picture_eq_fast w expected p = picture_eq expected p) /\
+  (forall rows, distinct100_fast rows = distinct100 rows).
+Proof. intros w h p. destruct (fast_predicates w h p) as [A B]. repeat split; [exact A|exact B|exact distinct100_fast_eq]. Qed.
 
 Check C12_decode_upto_2p56px : forall (rows : list (list spx)) (w : nat), src_ok rows w ->
   exists pal q, quantize (sixel_eff rows) sixel_palette_size sixel_dither = Ok (pal, q) /\
